@@ -695,13 +695,17 @@ func (g *qg) item(depth int) gen.Val {
 			g.stats["only-element-splice"]++
 		}
 	}
-	q := g.n(0, 9, "quote")
+	q := g.n(0, 11, "quote")
 	if q == 8 {
 		v.Q++
 		g.stats["quoted-item"]++
 	} else if q == 9 {
 		v.Q += 2
 		g.stats["doubly-quoted-item"]++
+	} else if q >= 10 {
+		// "at any nesting of lists and quotes": three and four marks
+		v.Q += q - 7
+		g.stats["item-under-3-or-4-quotes"]++
 	}
 	return v
 }
